@@ -66,21 +66,31 @@ Theorem C03_at_most_once_partial : forall g hist e,
 Proof. exact at_most_once. Qed.
 Print Assumptions C03_at_most_once_partial.
 
-(* The clause without the controller fact: *)
-Definition C03_at_most_once_statement : Prop :=
-  forall g hist e, In e (vrun g vinit hist) -> forall r, nsign_of (ev_post e) r <= 1.
+(* The clause without the controller fact, for the code without ([false]) / with ([true]) the repair
+   of finding F-resign ([v_fix_resign], read from the source on every run): *)
+Definition C03_at_most_once_statement (repaired : bool) : Prop :=
+  forall g hist e, v_fix_resign g = repaired ->
+    In e (vrun g vinit hist) -> forall r, nsign_of (ev_post e) r <= 1.
 
-(* The runner itself does not remember that it acted on a decision: if the controller reports the
-   decision of the running instance again as a first decision, the runner signs again. *)
-Theorem C03_at_most_once_refuted : ~ C03_at_most_once_statement.
+(* Unrepaired, the runner does not remember that it acted on a decision: if the controller reports
+   the decision of the running instance again as a first decision, the runner signs again. *)
+Theorem C03_at_most_once_refuted : ~ C03_at_most_once_statement false.
 Proof. exact at_most_once_refuted. Qed.
 Print Assumptions C03_at_most_once_refuted.
+
+(* Repaired (didDecideCorrectly also refuses when State.DecidedValue is set), it holds for every
+   history and every behaviour of the controller. *)
+Theorem C03_at_most_once_repaired : C03_at_most_once_statement true.
+Proof. exact at_most_once_fixed. Qed.
+Print Assumptions C03_at_most_once_repaired.
 
 Example C03_reported_again_witness :
   map (fun e => signs (ev_outs e)) (vrun cfg4 vinit reported_again)
   = [ []; [Sign RAtt DAttester 0%N]; [Sign RAtt DAttester 0%N] ]
-  /\ map oracle_consistent_at (vrun cfg4 vinit reported_again) = [true; true; false].
-Proof. vm_compute. split; reflexivity. Qed.
+  /\ map oracle_consistent_at (vrun cfg4 vinit reported_again) = [true; true; false]
+  /\ map (fun e => signs (ev_outs e)) (vrun cfg4_fixed vinit reported_again)
+  = [ []; [Sign RAtt DAttester 0%N]; [] ].
+Proof. vm_compute. repeat split; reflexivity. Qed.
 
 (* ---- non-vacuity: a proposer duty from start to finish with stale, future, foreign, replayed and
         invalid inputs -------------------------------------------------------------------------- *)
